@@ -312,6 +312,13 @@ pub async fn liquidation(w: &mut World, m: &mut Mon, r: &mut R, lev: &Lev, lq: u
     let pos: u64 = acc.lending_account.balances.iter().find(|b| b.active != 0 && b.bank_pk == w.banks[ca].key).map(|b| to_u64_floor(&(fx(&b.asset_shares.value) * &q.asv)).unwrap_or(0)).unwrap_or(0);
     let max = bisect_max(w, m, &[&lk], pos.saturating_add(2), |w, x| vec![w.ix_liquidate(lq, le, ca, db, lkp, x)]).await;
     m.r.count(if max.is_some() { "scen.liquidation_boundary_found" } else { "scen.liquidation_not_possible" });
+    // a caller that names one of the two banks twice among the liquidator's observation accounts
+    // (only an account holding two positions in one bank could need that)
+    for d in [ca, db] {
+        let i = w.ix_liquidate_x(lq, le, ca, db, lkp, 1, Some(d));
+        let o = w.exec(m, &[i], &[&lk]).await;
+        m.r.count(if o.ok() { "scen.liquidation_naming_a_bank_twice_accepted" } else { "scen.liquidation_naming_a_bank_twice_rejected" });
+    }
     if let Some(mx) = max {
         // the neighbour above the boundary has been simulated (rejected); commit one amount
         let amt = pick(r, &[mx, mx / 2 + 1, mx / 10 + 1, 1]);
